@@ -417,3 +417,49 @@ impl Scenario for ManyPages {
         cx.verdict()
     }
 }
+
+/// A bus of zero signs is a legal bus: every message must simply go unanswered.
+pub struct EmptyBus;
+
+impl Scenario for EmptyBus {
+    fn name(&self) -> &'static str {
+        "c12-empty-bus"
+    }
+    fn property(&self) -> &'static str {
+        "C12"
+    }
+    fn runs(&self, tier: Tier) -> u64 {
+        match tier {
+            Tier::Quick => 2_000,
+            Tier::Thorough => 200_000,
+        }
+    }
+    fn describe(&self) -> &'static str {
+        "a VirtualSignBus holding no sign at all receives raw messages of every kind and a real Sign controller's operations"
+    }
+    fn run(&self, cx: &Cx) -> Result<(), Violation> {
+        let world = World::new(cx, "C12", OnPanic::Fail, &[], false);
+        let n = 1 + cx.draw(12);
+        for _ in 0..n {
+            if cx.failed() {
+                break;
+            }
+            if cx.chance(1, 4) {
+                let fb = Rc::new(RefCell::new(FaultyBus::new(world.clone(), cx, FaultCfg::none())));
+                let t = gens::sign_type(cx);
+                let sign = Sign::new(fb, gens::address(cx), t);
+                let op = ops::gen_op(cx, t, 2);
+                let out = ops::apply(&sign, &op);
+                cx.event("op", &(op.code(), &out));
+            } else {
+                let m = gens::raw_message(cx, &[]);
+                let r = world.lock().deliver(&m);
+                if r.is_some() {
+                    cx.fail("C12/reply-from-empty-bus", format!("a bus without signs answered {}", gens::show_opt(&r)));
+                }
+            }
+        }
+        cx.set_nontrivial();
+        cx.verdict()
+    }
+}
